@@ -204,9 +204,16 @@ class SWTForward(nn.Module):
         coeffs = []
         # Do a multilevel transform
         filts = (self.h0_col, self.h1_col, self.h0_row, self.h1_row)
+        # The undecimated transform is periodic; 'periodization' is the name
+        # the decimated transforms (and the default argument) use for it
+        mode = self.mode
+        if mode == 'per' or mode == 'periodization':
+            mode = 'periodic'
         for j in range(self.J):
             # Do 1 level of the transform
-            y = lowlevel.afb2d_atrous(ll, filts, self.mode, 2**j)
+            y = lowlevel.afb2d_atrous(ll, filts, mode, 2**j)
+            s = y.shape
+            y = y.reshape(s[0], -1, 4, s[-2], s[-1])
             coeffs.append(y)
             ll = y[:,:,0]
 
